@@ -188,8 +188,19 @@ where
                result = self.listener.accept() => {
                    match result {
                         Err(err) => {
+                            // an error from accept() concerns the connection that could not be accepted
+                            // (reset before we got to it) or a momentary shortage (descriptors, memory):
+                            // the listener and the established sessions are still good
                             tracing::error!("error accepting connection: {}", err);
-                            return;
+                            if !matches!(
+                                err.kind(),
+                                std::io::ErrorKind::ConnectionAborted
+                                    | std::io::ErrorKind::ConnectionReset
+                                    | std::io::ErrorKind::ConnectionRefused
+                            ) {
+                                // give a shortage time to clear instead of spinning on it
+                                tokio::time::sleep(std::time::Duration::from_secs(1)).await;
+                            }
                         }
                         Ok((socket, addr)) => {
                             if self.filter.matches(addr.ip()) {
